@@ -154,8 +154,10 @@ impl System for WinSys {
         if !gset.is_subset(&eset) {
             return Err(Mismatch::new("sliding_holds_unoffered_event", format!("window holds {:?}, expected a subset of {:?}", got, expect)));
         }
-        // the cap may bind as soon as the buffer momentarily exceeds it (before or after eviction)
-        if self.slide_model.len() + 1 <= self.cap {
+        // "no younger retained event has been dropped (except oldest-first by the retention cap)": the cap is a bound on
+        // what is retained after the expired events are gone. While the in-span events fit, all of them are held; when
+        // they do not, exactly `cap` are held and the dropped ones are the oldest (by arrival or by timestamp).
+        if expect.len() <= self.cap {
             if gset != eset {
                 return Err(Mismatch::new("sliding_dropped_event_inside_span", format!("after record(ts={}) duration {} ms cap {}: holds {:?}, expected {:?}", ts, w, self.cap, got, expect)));
             }
@@ -163,7 +165,15 @@ impl System for WinSys {
             if got.len() > self.cap {
                 return Err(Mismatch::new("retention_cap_exceeded", format!("sliding window holds {} events, cap {}", got.len(), self.cap)));
             }
-            expect = got.clone(); // which ones the cap drops is not fixed by the statement: follow the code
+            let by_arrival: BTreeSet<&(String, u64)> = expect[expect.len() - self.cap..].iter().collect();
+            let mut sorted: Vec<&(String, u64)> = expect.iter().collect();
+            sorted.sort_by_key(|x| std::cmp::Reverse(x.1));
+            let min_kept_ts = sorted[self.cap - 1].1;
+            let by_timestamp_ok = got.len() == self.cap && got.iter().all(|x| x.1 >= min_kept_ts) && expect.iter().filter(|x| x.1 > min_kept_ts).all(|x| gset.contains(x));
+            if gset != by_arrival && !by_timestamp_ok {
+                return Err(Mismatch::tagged("sliding_cap_dropped_other_than_oldest", format!("after record(ts={}) duration {} ms cap {}: {} events are inside the span {:?}; the window holds {:?}, expected the {} youngest (by arrival: {:?})", ts, w, self.cap, expect.len(), expect, got, self.cap, by_arrival), &["retention_cap_binds"]));
+            }
+            expect = got.clone();
         }
         self.slide_model = expect;
         check_aggregates(&self.sliding, "sliding window")?;
